@@ -694,9 +694,22 @@ def str_method(I, v, name, args, kw):
                 out = z3.Concat(out, s, p_.t)
             return VStr(out, v.is_bytes)
         return VStr(z3.String(I.fresh_name("join")))
+    if name in ("isdigit", "isalpha") and getattr(I.ctx, "strings", False):
+        # string-solver route: the ASCII class, at least one character (A-ASCII)
+        from . import regex as _rx
+        return VBool(z3.InRe(s, z3.Plus(_rx.STR_PRED[name]())))
     if name in ("isdigit", "isnumeric", "isalpha", "isupper", "islower"):
         f = z3.Function("py_" + name, z3.StringSort(), z3.BoolSort())
         return VBool(f(s))
+    if name == "rfind" and len(args) == 1:
+        # last occurrence: r = -1 and no occurrence, or an occurrence at r with none starting behind it
+        a = I.force(args[0])
+        r = z3.Int(I.fresh_name("rfind"))
+        ln = z3.Length(a.t)
+        I.ctx.assume(z3.Or(z3.And(r == -1, z3.Not(z3.Contains(s, a.t))),
+                           z3.And(r >= 0, r + ln <= z3.Length(s), z3.SubString(s, r, ln) == a.t,
+                                  z3.IndexOf(s, a.t, r + 1) == -1)))
+        return VInt(r)
     if name in ("decode", "encode"):
         return VStr(s, name == "encode")
     if name == "split" and len(args) == 1 and _lit(I.force(args[0])):
